@@ -187,6 +187,11 @@ pub fn alphabet(root_uid: bool) -> Vec<Op> {
                 ops.push(Op::Symlink(a.clone(), s(t)));
             }
         }
+        // relative targets in spellings that are not clean: what the link records (and readlink returns) is the
+        // same on both backends
+        for t in ["./b", "b/../a", "./", "../b/./a"] {
+            ops.push(Op::Symlink(a.clone(), s(t)));
+        }
     }
     for (a, b) in [("/a", "/b"), ("/a/a", "/b"), ("/b", "/a/b")] {
         ops.push(Op::CopyB(s(a), s(b), CopyMode::All(0o700), false));
@@ -368,7 +373,7 @@ fn follow_up_queries() -> Vec<Op> {
     let mut q = vec![];
     for p in ["/a", "/a/a", "/a/ab", "/ab", "/ab/a", "/ab/ab", "/zz"] {
         let p = s(p);
-        q.extend([Op::Exists(p.clone()), Op::IsFile(p.clone()), Op::IsDir(p.clone()), Op::IsSymlink(p.clone()), Op::ReadAll(p.clone()), Op::ReadLines(p.clone()), Op::ReadlinkAbs(p.clone()), Op::Mode(p.clone()), Op::IsExec(p.clone()), Op::IsReadonly(p.clone())]);
+        q.extend([Op::Exists(p.clone()), Op::IsFile(p.clone()), Op::IsDir(p.clone()), Op::IsSymlink(p.clone()), Op::ReadAll(p.clone()), Op::ReadLines(p.clone()), Op::ReadlinkAbs(p.clone()), Op::Readlink(p.clone()), Op::Mode(p.clone()), Op::IsExec(p.clone()), Op::IsReadonly(p.clone())]);
     }
     q.push(Op::AllPaths(s("/")));
     q
@@ -534,6 +539,11 @@ pub fn worker(w: &mut WorkerCtx) {
             if ops_rel[oi].is_mutator() && !od.panicked() && !om.panicked() && post_in_domain {
                 for (qi, q) in follow_up.iter().enumerate() {
                     if outside_domain_post(&mem, &sbr, &follow_up_rel[qi]) {
+                        continue;
+                    }
+                    // the text a link records is compared right after the link was made; what a *moved* link
+                    // records is the known finding "move_p tree:link-target"
+                    if matches!(follow_up_rel[qi], Op::Readlink(_)) && !matches!(ops_rel[oi], Op::Symlink(..)) {
                         continue;
                     }
                     let _ = std::env::set_current_dir(&sbr);
